@@ -23,6 +23,7 @@ POOL = [
     ("H--", {}, "H--"),
     ("e-", {}, "electron"),
     ("E", {}, "electron"),
+    ("E-", {}, "electron"),
     ("oH2", {}, "oH2"),
     ("pH2", {}, "pH2"),
     ("PH2", {}, "PH2"),
@@ -41,7 +42,7 @@ POOL = [
     ("He", {}, "He"),
     ("He+", {}, "He+"),
 ]
-QUICK_POOL = [p for p in POOL if p[0] in ('H', 'H+', 'H-', 'H--', 'e-', 'E', 'oH2', 'OH2', '#H', 'GH', '#1H', '#2H', 'GRAIN0', 'H2', 'H2*', 'c-C3H2', 'CO')]
+QUICK_POOL = [p for p in POOL if p[0] in ('H', 'H+', 'H-', 'H--', 'e-', 'E', 'E-', 'oH2', 'OH2', '#H', 'GH', '#1H', '#2H', 'GRAIN0', 'H2', 'H2*', 'c-C3H2', 'CO')]
 
 # upper-case UCLCHEM convention: element list in capitals, a replacement table that restores the usual symbols
 UCL_ELEMENTS = ["E", "H", "HE", "C", "O"]
